@@ -26,6 +26,8 @@ func main() {
 		os.Exit(cmdReplay(os.Args[2]))
 	case "lock":
 		cmdLock(os.Args[2:])
+	case "maporder":
+		cmdMapOrder(os.Args[2:])
 	default:
 		fmt.Fprintln(os.Stderr, "unknown command")
 		os.Exit(2)
@@ -208,4 +210,23 @@ func contains(xs []string, x string) bool {
 		}
 	}
 	return false
+}
+
+func cmdMapOrder(pkgs []string) {
+	prog, err := loadProgram()
+	if err != nil {
+		fmt.Fprintln(os.Stderr, err)
+		os.Exit(2)
+	}
+	for _, site := range findMapRanges(prog, pkgs) {
+		vc, note, err := buildMapOrderVC(prog, site)
+		if err != nil {
+			fmt.Printf("%-70s CANNOT: %v\n", site.name, err)
+			continue
+		}
+		rs := discharge(vc, runCfg{workDir: "/verif/work/dbg", timeoutS: 10, needAgree: 1, par: 4})
+		for _, r := range rs {
+			fmt.Printf("%-70s %s [%s] %s\n", r.Name, r.Status, r.Result, note)
+		}
+	}
 }
